@@ -573,11 +573,13 @@ def write_replay(prop, seed, k, payload):
 
 
 def write_evidence(prop, tier, seed, coverage, assumptions, wall_s, violations):
-    os.makedirs(os.path.join(VERIF, "evidence"), exist_ok=True)
+    # runs against another tree (VERIF_REPO) keep their evidence with their private build output
+    evdir = os.path.join(VERIF, "evidence") if REPO == "/repo" else os.path.join(BUILD, "evidence")
+    os.makedirs(evdir, exist_ok=True)
     ev = {"property_id": prop, "tier": tier, "seed": seed, "level": "proof",
           "coverage": coverage, "assumptions": assumptions, "wall_s": round(wall_s, 1),
           "violations": violations}
-    with open(os.path.join(VERIF, "evidence", prop + ".json"), "w") as f:
+    with open(os.path.join(evdir, prop + ".json"), "w") as f:
         json.dump(ev, f, indent=1)
     return ev
 
